@@ -724,6 +724,18 @@ pub fn anchors() -> Vec<Ty> {
     v.push(flex(zst.clone(), L::U16));
     v.push(sstruct("AZstVecTail", vec![prim(U16), fvec(Ty::Unit, L::U8)], false, false, true));
     v.push(flex(fvec(Ty::Unit, L::U8), L::U8));
+    // a zero-sized field between a less aligned and a more aligned one (struct, enum variant, aligned ZST)
+    v.push(sstruct("AZstMid", vec![prim(U8), Ty::Unit, prim(U32), fvec(prim(U8), L::U8)], false, false, true));
+    v.push(sstruct("AZstMid2", vec![prim(U8), Ty::Array(b(prim(U64)), 0), prim(U16), Ty::FlatString(L::U8)], false, false, true));
+    v.push(sstruct("AZstMidSized", vec![prim(U8), Ty::Unit, prim(U32), Ty::Array(b(prim(U16)), 0), prim(U8)], true, false, true));
+    v.push(senum(
+        "AEnumZstMid",
+        TagTy::U8,
+        vec![var(Unit, vec![]), var(Named, vec![prim(U8), Ty::Unit, prim(U32), fvec(prim(U8), L::U8)]), var(Tuple, vec![Ty::Array(b(prim(U16)), 0), prim(U8), Ty::Unit, prim(U64)])],
+        false,
+        false,
+        Some(0),
+    ));
 
     let mut seen = std::collections::HashSet::new();
     v.retain(|t| seen.insert(t.rust()));
